@@ -90,6 +90,15 @@ type CC struct {
 	NewSubConnErr error
 	// Legacy receives updates of SubConns created without a StateListener.
 	Legacy func(balancer.SubConn, balancer.SubConnState)
+	// Gate, when non-nil, is called on the caller's goroutine with no fakecc
+	// lock held: at entry of NewSubConn (sc == nil, post == false), just before
+	// NewSubConn returns the SubConn it created and recorded (post == true), and
+	// at entry (before the call is recorded or has any effect, post == false) of
+	// UpdateAddresses, ResolveNow, SubConn.Connect and SubConn.Shutdown. It may
+	// block: that models a channel that is slow inside the call, so a harness
+	// can keep a policy's call "in flight" while it drives other operations.
+	// Set before use; nil (the zero value) = calls never block.
+	Gate func(k Kind, sc *SubConn, post bool)
 
 	target string
 
@@ -110,15 +119,22 @@ func (c *CC) appendLocked(e Entry) {
 
 // NewSubConn implements balancer.ClientConn.
 func (c *CC) NewSubConn(addrs []resolver.Address, opts balancer.NewSubConnOptions) (balancer.SubConn, error) {
+	if g := c.Gate; g != nil {
+		g(KNewSubConn, nil, false)
+	}
 	c.mu.Lock()
-	defer c.mu.Unlock()
 	if c.NewSubConnErr != nil {
+		c.mu.Unlock()
 		return nil, c.NewSubConnErr
 	}
 	sc := &SubConn{cc: c, ID: len(c.subConns), Addrs: append([]resolver.Address(nil), addrs...), Opts: opts,
 		cur: connectivity.Idle, queued: c.QueuedAfterShutdown}
 	c.subConns = append(c.subConns, sc)
 	c.appendLocked(Entry{Kind: KNewSubConn, SC: sc})
+	c.mu.Unlock()
+	if g := c.Gate; g != nil {
+		g(KNewSubConn, sc, true)
+	}
 	return sc, nil
 }
 
@@ -128,6 +144,9 @@ func (c *CC) RemoveSubConn(sc balancer.SubConn) { sc.Shutdown() }
 // UpdateAddresses implements balancer.ClientConn (recorded, otherwise ignored).
 func (c *CC) UpdateAddresses(sc balancer.SubConn, _ []resolver.Address) {
 	if f, ok := sc.(*SubConn); ok {
+		if g := c.Gate; g != nil {
+			g(KUpdateAddresses, f, false)
+		}
 		c.mu.Lock()
 		c.appendLocked(Entry{Kind: KUpdateAddresses, SC: f})
 		c.mu.Unlock()
@@ -144,6 +163,9 @@ func (c *CC) UpdateState(s balancer.State) {
 
 // ResolveNow implements balancer.ClientConn.
 func (c *CC) ResolveNow(resolver.ResolveNowOptions) {
+	if g := c.Gate; g != nil {
+		g(KResolveNow, nil, false)
+	}
 	c.mu.Lock()
 	c.resolveNows++
 	c.appendLocked(Entry{Kind: KResolveNow})
@@ -270,6 +292,9 @@ func (s *SubConn) UpdateAddresses(a []resolver.Address) { s.cc.UpdateAddresses(s
 
 // Connect implements balancer.SubConn.
 func (s *SubConn) Connect() {
+	if g := s.cc.Gate; g != nil {
+		g(KConnect, s, false)
+	}
 	s.cc.mu.Lock()
 	defer s.cc.mu.Unlock()
 	s.connects++
@@ -286,6 +311,9 @@ func (s *SubConn) GetOrBuildProducer(balancer.ProducerBuilder) (balancer.Produce
 
 // Shutdown implements balancer.SubConn. Idempotent.
 func (s *SubConn) Shutdown() {
+	if g := s.cc.Gate; g != nil {
+		g(KShutdown, s, false)
+	}
 	s.cc.mu.Lock()
 	defer s.cc.mu.Unlock()
 	s.cc.appendLocked(Entry{Kind: KShutdown, SC: s})
@@ -328,6 +356,19 @@ func (s *SubConn) ConnectPending() bool {
 	s.cc.mu.Lock()
 	defer s.cc.mu.Unlock()
 	return s.connectPending
+}
+
+// Shutdowns returns the number of Shutdown() calls made on this SubConn.
+func (s *SubConn) Shutdowns() int {
+	s.cc.mu.Lock()
+	defer s.cc.mu.Unlock()
+	n := 0
+	for _, e := range s.cc.log {
+		if e.Kind == KShutdown && e.SC == s {
+			n++
+		}
+	}
+	return n
 }
 
 // ShutdownCalled reports whether the policy called Shutdown().
